@@ -26,8 +26,20 @@ def model_runs(ctx):
     res = tlc.run("MC_Markup", cfg="MC_Markup" if ctx.quick else "MC_Markup7")
     ctx.add_tlc(res, "span reconstruction design models (open_span flag) yield balanced markup covering exactly the flagged characters")
     ctx._cases = res.cases()
+    res2 = tlc.run("MC_Styles")
+    ctx.add_tlc(res2, "DFXP style table: with referenced styles written first every reference to a defined style survives, on all "
+                      "acyclic reference graphs over three styles x italic carrier x span target")
+    ctx._styles = res2.cases()
     ctx.extra["exhaustive"] = True
-    ctx.extra["bound"] = "balanced flat node streams of length <= %d" % (5 if ctx.quick else 7)
+    ctx.extra["bound"] = "balanced flat node streams of length <= %d; 864 style-reference cases" % (5 if ctx.quick else 7)
+
+
+def model_controls(ctx):
+    r = tlc.run("MC_Styles", cfg="MC_Styles_neg", allow_violation=True, workers=4)
+    if r.violated != "ModelMeetsRequirement":
+        raise tlc.MachineryError("MC_Styles_neg not refuted")
+    ctx.add_tlc(r, "negative control: the style table written in id order (as found) loses a forward reference")
+    return 1
 
 
 def inputs(ctx):
@@ -111,6 +123,24 @@ def inputs(ctx):
         for k, nodes in enumerate(shapes):
             for r in (["WebVTT"], ["DFXP"], ["SAMI"], ["DFXP", "WebVTT"], ["SAMI", "WebVTT"]):
                 ins.append({"id": "bl%d%s-%s" % (k, "c" if cls else "n", "-".join(r)), "k": "spans", "nodes": nodes, "route": r})
+    # every behaviour of the style-table model (MC_Styles): three styles in their definition order, one
+    # italic, references between them, a span naming one of them; read and written again
+    for k, c in enumerate(ctx._styles):
+        if ctx.quick and k % 2:
+            continue
+        defs = []
+        for sid in c["order"]:
+            attrs = 'xml:id="s_%s" tts:color="%s"' % (sid, {"a": "red", "b": "blue", "c": "lime"}[sid])
+            if c["ref"][sid] != "none":
+                attrs += ' style="s_%s"' % c["ref"][sid]
+            if c["italic"] == sid:
+                attrs += ' tts:fontStyle="italic"'
+            defs.append("<style %s/>" % attrs)
+        st = ["i"] if c["want"] else []
+        nodes = [{"t": "T", "s": [97, 32]}, {"t": "S", "on": True, "st": st}, {"t": "T", "s": [98, 98]}, {"t": "S", "on": False, "st": st}]
+        for r in (["DFXP"], ["WebVTT"]):
+            ins.append({"id": "sg%d-%s" % (k, r[0]), "k": "spans", "nodes": nodes, "route": r, "src": "DFXP", "refs": "graph",
+                        "sg": {"defs": "".join(defs), "target": c["target"]}})
     # a caption that is italic as a whole through the style class it names, in a document that also has a
     # style called "p" (DFXP writers)
     plain = [c["nodes"] for c in ctx._cases if not any(n["t"] == "S" for n in c["nodes"])]
@@ -464,7 +494,13 @@ def execute(inp):
             for c in cs.get_captions(lg):
                 caps.append(project_nodes(c))
         return {"k": "balanced", "caps": caps}
-    if inp.get("src") in ("SAMI", "DFXP") and inp.get("refs"):
+    if inp.get("sg"):
+        from . import render
+        doc = render.dfxp_doc([("en-US", [('begin="00:00:01.000" end="00:00:02.000"',
+                                           'a <span style="s_%s">bb</span>' % inp["sg"]["target"])])],
+                              head="<styling>%s</styling>" % inp["sg"]["defs"])
+        cs = READERS["DFXP"]().read(doc)
+    elif inp.get("src") in ("SAMI", "DFXP") and inp.get("refs"):
         cs = READERS[inp["src"]]().read(_ref_doc_from_nodes(inp["nodes"], inp["src"], inp["refs"]))
     elif inp.get("src") in ("SAMI", "DFXP"):
         cs = READERS[inp["src"]]().read(_doc_from_nodes(inp["nodes"], inp["src"]))
